@@ -162,6 +162,11 @@ def square(draw, n, field):
         return dict(kind="float", m=draw(G.matrix(n, "complex", 3.0)))
     if field == "int":
         return dict(kind="int", m=draw(gen.unimodular_int_matrix(n, steps=4, maxabs=2)))
+    if field == "intdet":
+        # integer entries, determinant +-2, +-3: invertible over the reals, not over Z
+        U = np.array(draw(gen.unimodular_int_matrix(n, steps=3, maxabs=2)))
+        d = [draw(st.sampled_from([2, 3, -2]))] + [1] * (n - 1)
+        return dict(kind="int", m=(U @ np.diag(d)).tolist())
     return dict(kind="gauss", m=draw(gauss_unimodular(n, steps=4, maxabs=1)))
 
 
@@ -260,9 +265,12 @@ def body_so21(case, ctx):
 @st.composite
 def adj_case(draw, which):
     n = draw(st.sampled_from([1, 2, 2, 3, 3, 4] if which == "gln" else [2, 2, 3, 3, 4]))
-    field = draw(st.sampled_from(["real", "complex", "int", "gauss"]))
+    field = draw(st.sampled_from(["real", "complex", "int", "gauss", "intdet", "intdet"]))
+    if field == "intdet":
+        n = draw(st.sampled_from([2, 2, 3]))       # (closed forms live in the lowest dimension)
     return dict(n=n, field=field, A=draw(square(n, field)), B=draw(square(n, field)),
-                X=[draw(fl(-2.0, 2.0)) for _ in range(n * n)], give_inv=draw(st.booleans()))
+                X=[draw(fl(-2.0, 2.0)) for _ in range(n * n)], give_inv=draw(st.booleans()),
+                inttyped=draw(st.sampled_from([True, True, False])))
 
 
 def body_adjoint(which):
@@ -275,6 +283,12 @@ def body_adjoint(which):
         ctx.label("field=" + field, "n=%d" % n, "n>=3" if n >= 3 else "")
         comm_label(ctx, A, B)
         cA, cB = cond_of(A), cond_of(B)
+        if field in ("int", "intdet") and case.get("inttyped"):
+            # the same integer matrices held in an int64 array
+            ctx.label("int64-typed-input")
+            fi = as_num(f_lib(A.astype(np.int64)))
+            ctx.close("adjoint of an int64-typed matrix = adjoint of the same matrix as float",
+                      fi, f_ref(A), rtol=0, atol=1e-10 * cA * cA * n)
         if case["give_inv"]:
             ctx.label("inv-given")
             fa = f_lib(A.copy(), inv=np.linalg.inv(A))
@@ -767,6 +781,9 @@ def body_to_sl2(case, ctx):
                2e-6 * nA ** 2 * nB ** 2)
     up_to_sign(ctx, "sl2_iso(A).inv().to_sl2() = +-A^-1", i1.inv().to_sl2(), np.linalg.inv(A),
                2e-6 * nA ** 4)
+    # the isometry object is given other data with set(): it answers for what it holds now
+    i1.set(np.array(i2.proj_data, copy=True))
+    up_to_sign(ctx, "to_sl2() after set(data of sl2_iso(B)) = +-B", i1.to_sl2(), B, 1e-6 * nB ** 2)
 
 
 @st.composite
